@@ -8,53 +8,82 @@
 //!   oracle.txt  `<op index>\t<class>\t<detail>` per oracle failure
 //!   dist.json   evaluations, distinct non-trivial cases, counters (input distribution), samples
 mod common;
-mod c01;
-mod c02;
-mod c03;
-mod c04;
-mod c05;
-mod c06;
-mod c07;
-mod c08;
-mod c09;
-mod c10;
-mod c11;
-mod c12;
-mod c13;
-mod c14;
-mod c15;
-mod c16;
-mod c17;
-mod c18;
-mod c19;
-mod c20;
+mod m_adapters;
+mod m_circle;
+mod m_color;
+mod m_conv;
+mod m_ellipse;
+mod m_faults;
+mod m_fb;
+mod m_font;
+mod m_image;
+mod m_line;
+mod m_mock;
+mod m_poly;
+mod m_raw;
+mod m_rect;
+mod m_rrect;
+mod m_scale;
+mod m_sector;
+mod m_styled;
+mod m_text;
+mod m_thick;
+mod m_tri;
 
 use common::*;
 use std::io::Write;
 
-fn props() -> Vec<Box<dyn Prop>> {
+fn modules() -> Vec<Box<dyn Module>> {
     vec![
-        Box::new(c01::C01),
-        Box::new(c02::C02),
-        Box::new(c03::C03),
-        Box::new(c04::C04),
-        Box::new(c05::C05),
-        Box::new(c06::C06),
-        Box::new(c07::C07),
-        Box::new(c08::C08),
-        Box::new(c09::C09),
-        Box::new(c10::C10),
-        Box::new(c11::C11),
-        Box::new(c12::C12),
-        Box::new(c13::C13),
-        Box::new(c14::C14),
-        Box::new(c15::C15),
-        Box::new(c16::C16),
-        Box::new(c17::C17),
-        Box::new(c18::C18),
-        Box::new(c19::C19),
-        Box::new(c20::C20),
+        Box::new(m_rect::M),
+        Box::new(m_raw::M),
+        Box::new(m_fb::M),
+        Box::new(m_image::M),
+        Box::new(m_color::M),
+        Box::new(m_conv::M),
+        Box::new(m_adapters::M),
+        Box::new(m_line::M),
+        Box::new(m_thick::M),
+        Box::new(m_poly::M),
+        Box::new(m_tri::M),
+        Box::new(m_mock::M),
+        Box::new(m_font::M),
+        Box::new(m_text::M),
+        Box::new(m_circle::M),
+        Box::new(m_ellipse::M),
+        Box::new(m_rrect::M),
+        Box::new(m_sector::M),
+        Box::new(m_styled::M),
+        Box::new(m_faults::M),
+        Box::new(m_scale::M),
     ]
+}
+
+/// Which modules the check of a property runs (each module generates the ops relevant to `pid`).
+fn modules_for(pid: &str) -> &'static [&'static str] {
+    match pid {
+        "C01" => &["styled", "adapters", "image", "text"],
+        "C02" => &["styled", "text", "image"],
+        "C03" => &["adapters"],
+        "C04" => &["faults"],
+        "C05" => &["rect", "circle", "ellipse", "rrect", "sector", "tri"],
+        "C06" => &["styled", "circle", "ellipse", "rrect"],
+        "C07" => &["styled", "line", "text", "image"],
+        "C08" => &["scale"],
+        "C09" => &["image"],
+        "C10" => &["fb"],
+        "C11" => &["raw"],
+        "C12" => &["color"],
+        "C13" => &["conv"],
+        "C14" => &["font"],
+        "C15" => &["text"],
+        "C16" => &["rect"],
+        "C17" => &["line", "thick"],
+        "C18" => &["circle", "ellipse", "rrect", "sector"],
+        "C19" => &["tri", "poly"],
+        "C20" => &["mock"],
+        _ => &[],
+    }
 }
 
 fn json_str(s: &str) -> String {
@@ -86,14 +115,12 @@ fn main() {
     let ops_file = if args.len() >= 7 && args[5] == "--ops" { Some(args[6].clone()) } else { None };
     std::fs::create_dir_all(&outdir).unwrap();
 
-    let all = props();
-    let prop = match all.iter().find(|p| p.id() == pid) {
-        Some(p) => p,
-        None => {
-            eprintln!("unknown property {}", pid);
-            std::process::exit(2);
-        }
-    };
+    let all = modules();
+    let wanted = modules_for(pid);
+    if wanted.is_empty() {
+        eprintln!("unknown property {}", pid);
+        std::process::exit(2);
+    }
 
     // quiet panics: they are results here (`panic:<message>`), not crashes
     std::panic::set_hook(Box::new(|_| {}));
@@ -115,11 +142,15 @@ fn main() {
                 }
             }
         }
-        let mut rng = Rng::new(seed);
-        prop.generate(tier, &mut rng, &mut |s| ops.push(s));
+        for (k, name) in wanted.iter().enumerate() {
+            let m = all.iter().find(|m| m.name() == *name).expect("module");
+            // one independent PRNG stream per module, all derived from the one seed
+            let mut rng = Rng::new(seed.wrapping_mul(1_000_003).wrapping_add(k as u64));
+            m.generate(pid, tier, &mut rng, &mut |s| ops.push(s));
+        }
     }
 
-    let mut ctx = Ctx::new(tier);
+    let mut ctx = Ctx::new(tier, pid);
     let mut f_ops = std::io::BufWriter::new(std::fs::File::create(outdir.join("ops.txt")).unwrap());
     let mut f_impl = std::io::BufWriter::new(std::fs::File::create(outdir.join("impl.txt")).unwrap());
     let mut samples: Vec<(String, String)> = Vec::new();
@@ -127,26 +158,30 @@ fn main() {
     let sample_every = (n / 6).max(1);
     for (i, op) in ops.iter().enumerate() {
         ctx.cur_op = i;
-        let res = {
-            let c = &mut ctx;
-            match std::panic::catch_unwind(std::panic::AssertUnwindSafe(|| prop.execute(op, c))) {
-                Ok(s) => s,
-                Err(e) => {
-                    let msg = if let Some(s) = e.downcast_ref::<&str>() {
-                        s.to_string()
-                    } else if let Some(s) = e.downcast_ref::<String>() {
-                        s.clone()
-                    } else {
-                        "?".to_string()
-                    };
-                    format!("panic:{}", msg.replace(['\n', '\t'], " "))
+        let stream = op.split(' ').next().unwrap_or("");
+        let mname = stream.split('.').next().unwrap_or("");
+        let res = match all.iter().find(|m| m.name() == mname) {
+            None => format!("panic:no module for stream {}", stream),
+            Some(m) => {
+                let c = &mut ctx;
+                match std::panic::catch_unwind(std::panic::AssertUnwindSafe(|| m.execute(op, c))) {
+                    Ok(s) => s,
+                    Err(e) => {
+                        let msg = if let Some(s) = e.downcast_ref::<&str>() {
+                            s.to_string()
+                        } else if let Some(s) = e.downcast_ref::<String>() {
+                            s.clone()
+                        } else {
+                            "?".to_string()
+                        };
+                        format!("panic:{}", msg.replace(['\n', '\t'], " "))
+                    }
                 }
             }
         };
         if res.starts_with("panic:") {
             ctx.count("result:panic");
-            // a panic of the harness/library on an op is always an oracle failure unless the
-            // property module turned it into a result itself
+            // a panic that the module did not turn into a result itself is always an oracle failure
             ctx.fail("panic", res.clone());
         }
         writeln!(f_ops, "{}", op).unwrap();
@@ -168,20 +203,38 @@ fn main() {
     f_ops.flush().unwrap();
     f_impl.flush().unwrap();
 
+    // failures whose class is prefixed with another property's id do not count for this check
+    let mine = |class: &str| -> bool {
+        let b = class.as_bytes();
+        if b.len() > 4 && b[0] == b'C' && b[1].is_ascii_digit() && b[2].is_ascii_digit() && b[3] == b':' {
+            &class[..3] == pid
+        } else {
+            true
+        }
+    };
     let mut f_or = std::io::BufWriter::new(std::fs::File::create(outdir.join("oracle.txt")).unwrap());
+    let mut nfail = 0;
     for f in &ctx.failures {
-        writeln!(f_or, "{}\t{}\t{}", f.op_index, f.class, f.detail.replace(['\n', '\t'], " ")).unwrap();
+        if mine(&f.class) {
+            nfail += 1;
+            writeln!(f_or, "{}\t{}\t{}", f.op_index, f.class, f.detail.replace(['\n', '\t'], " ")).unwrap();
+        }
     }
     f_or.flush().unwrap();
 
+    let rules: Vec<String> = wanted
+        .iter()
+        .map(|name| format!("[{}] {}", name, all.iter().find(|m| m.name() == *name).unwrap().rule()))
+        .collect();
     let mut d = String::new();
     d.push_str("{\n");
     d.push_str(&format!(" \"property\": {},\n", json_str(pid)));
+    d.push_str(&format!(" \"modules\": {},\n", json_str(&wanted.join(","))));
     d.push_str(&format!(" \"evaluations\": {},\n", n));
     d.push_str(&format!(" \"oracle_checks\": {},\n", ctx.oracle_checks));
     d.push_str(&format!(" \"distinct_nontrivial\": {},\n", ctx.nontrivial.len()));
-    d.push_str(&format!(" \"rule\": {},\n", json_str(prop.rule())));
-    d.push_str(&format!(" \"oracle_failures\": {},\n", ctx.failures.len()));
+    d.push_str(&format!(" \"rule\": {},\n", json_str(&rules.join(" ; "))));
+    d.push_str(&format!(" \"oracle_failures\": {},\n", nfail));
     d.push_str(" \"counters\": {");
     let mut first = true;
     for (k, v) in &ctx.counters {
